@@ -219,7 +219,7 @@ theorem step_spec (E : Engine) {Good : List Char → Prop} {good : List Char →
   | cache limit level =>
     obtain ⟨t', n, h1, hs, _⟩ := treeCache_spec E t limit level
     refine ⟨t', by simp [treeStep, h1], ⟨?_, ?_⟩, hnd, hdom⟩
-    · rw [← inv_strip, hs, inv_strip]; exact hinv
+    · rw [inv_of_treeCache h1]; exact hinv
     · rw [← contents_strip, hs, contents_strip]; exact hperm
 
 /-! ### Histories -/
